@@ -236,6 +236,12 @@ func genC02(e *emitter, tier string, seed int64) {
 			}
 		}
 	}
+	// signed literals: the sign is folded into the literal by the parser - the value keeps its type
+	// (a float stays a float at and around 2^63, an integer stays exact)
+	for _, lit := range []string{"-9223372036854775808.0", "-9223372036854775808.0 / 3", "-9223372036854775809 - 1", "-(-9223372036854775808.0)", "-9.223372036854775808e18", "+9223372036854775808.0",
+		"-9223372036854775808", "-9223372036854775808 + 1", "-9223372036854775807", "-9223372036854775807 - 1", "-0", "-0.0", "+1.5", "- 1.5", "-9223372036854775810.5", "-9223372036854776832", "- - 5", "-+-5", "+-9223372036854775808.0 % 2"} {
+		emitProg(e, "p("+lit+")\nx = "+lit+"\np(x, x / 2, x == "+lit+")\n", basePt, true, "signed-literals")
+	}
 	// random expression trees up to size 12
 	N := 3000
 	if tier == "thorough" {
